@@ -90,6 +90,20 @@ def main():
         src = strip_comments(open(os.path.join(XMLS, "FormatterToXMLUnicode.hpp"), encoding="utf-8", errors="replace").read())
         iw = strip_comments(open(os.path.join(XMLS, "XalanIndentWriter.hpp"), encoding="utf-8", errors="replace").read())
         dw = strip_comments(open(os.path.join(XMLS, "XalanDummyIndentWriter.hpp"), encoding="utf-8", errors="replace").read())
+        legacy = strip_comments(open(os.path.join(XMLS, "FormatterToXML.cpp"), encoding="utf-8", errors="replace").read())
+        legacy_raw = norm(body_of(legacy, "charactersRaw"))
+        if "m_ispreserve=true;" not in legacy_raw:
+            raise ValueError("FormatterToXML::charactersRaw no longer sets m_ispreserve")
+        wcc = norm(body_of(src, "writeCDATAChars"))
+        reopen_before = "if(outsideCDATA==true){m_writer.write(m_constants.s_cdataOpenString,m_constants.s_cdataOpenStringLength);}m_writer.write(value_type(XalanUnicode::charRightSquareBracket));" in wcc
+        close_before = "if(outsideCDATA==true){m_writer.write(m_constants.s_cdataCloseString,m_constants.s_cdataCloseStringLength);}m_writer.write(value_type(XalanUnicode::charRightSquareBracket));" in wcc
+        trailing_open = wcc.endswith("if(outsideCDATA==true){m_writer.write(m_constants.s_cdataOpenString,m_constants.s_cdataOpenStringLength);}")
+        if reopen_before and not trailing_open:
+            cdata_repaired = True
+        elif close_before and trailing_open:
+            cdata_repaired = False
+        else:
+            raise ValueError("writeCDATAChars has neither the repaired nor the unrepaired shape the model knows")
         if "m_indentHandler" not in src:
             raise ValueError("FormatterToXMLUnicode.hpp no longer has an m_indentHandler member")
         cps = [(f, calls_of(body_of(src, f))) for f in FNS]
@@ -120,6 +134,10 @@ def main():
     out.append("]")
     out.append("/-- does writeCDATA / charactersRaw tell the indent handler that text was written -/")
     out.append("def codeCfg : CodeCfg := { cdataSetsPrevText := %s, rawSetsPrevText := %s }" % (str(cdata).lower(), str(raw).lower()))
+    out.append("/-- does the legacy FormatterToXML::charactersRaw (base of FormatterToHTML) set m_isprevtext -/")
+    out.append("def legacyRawSetsPrevText : Bool := %s" % str("m_isprevtext=true;" in legacy_raw).lower())
+    out.append("/-- writeCDATAChars: repaired shape (section re-opened before a `]]>` met outside, nothing written at the end) -/")
+    out.append("def cdataCharsRepaired : Bool := %s" % str(cdata_repaired).lower())
     out.append("end XalanModel.Generated.C08")
     txt = "\n".join(out) + "\n"
     os.makedirs(common.GEN, exist_ok=True)
